@@ -333,6 +333,13 @@ def make_model_image(shape, model, params_table, *, model_shape=None,
         except NoOverlapError:
             continue
 
+    if len(params_table) > 0 and not isinstance(image, u.Quantity):
+        # no source overlapped the image: the (empty) image must still
+        # carry the units of the model
+        value = model(x0, y0)
+        if isinstance(value, u.Quantity):
+            image <<= value.unit
+
     return image
 
 
